@@ -2,7 +2,7 @@
    changes nothing outside it. *)
 From Coq Require Import ZArith List Bool Lia.
 Import ListNotations.
-From Cffi Require Import C19.Model C19.Spec.
+From Cffi Require Import C19.Types C19.Gen C19.Model C19.Spec.
 Open Scope Z_scope.
 
 (* ---------------------------------------------------------------- lists *)
@@ -411,6 +411,43 @@ Theorem from_buffer_fixed_array : forall len isz buflen,
   from_buffer_length (FFixedArray len isz) false true buflen =
   if buflen <? len * isz then Err ValueError else Ok len.
 Proof. reflexivity. Qed.
+
+(* the regenerated fast-path test is taken only for items of size 1 (decided over every item type) *)
+Definition fast_only_size1 (c : cond) : bool :=
+  forallb (fun it => implb (cond_holds c it) (it_size it =? 1)) all_items.
+
+Lemma gen_fast_only_size1 : fast_only_size1 gen_from_buffer_fast = true.
+Proof. vm_compute. reflexivity. Qed.
+
+(* hence the code computes len // size for every item type, whatever test passes the check *)
+Theorem from_buffer_code_is_len_div_size : forall c it buflen,
+  fast_only_size1 c = true -> In it all_items -> 0 <= buflen ->
+  from_buffer_open_code c it buflen =
+  if 0 <? it_size it then Ok (buflen / it_size it) else Err ZeroDivisionError.
+Proof.
+  intros c it buflen Hc Hin Hb. unfold fast_only_size1 in Hc. rewrite forallb_forall in Hc.
+  specialize (Hc it Hin). unfold from_buffer_open_code.
+  destruct (cond_holds c it); cbn [implb] in Hc.
+  - apply Z.eqb_eq in Hc. rewrite Hc. cbn. rewrite Z.div_1_r. reflexivity.
+  - destruct (Z.ltb_spec 0 (it_size it)); [|reflexivity]. rewrite Z.quot_div_nonneg by lia. reflexivity.
+Qed.
+
+Theorem from_buffer_code_matches_model : forall it buflen, In it all_items -> 0 < it_size it -> 0 <= buflen ->
+  from_buffer_open_code gen_from_buffer_fast it buflen
+  = from_buffer_length (FOpenArray (it_size it)) false true buflen.
+Proof.
+  intros it buflen Hin Hs Hb.
+  rewrite (from_buffer_code_is_len_div_size _ _ _ gen_fast_only_size1 Hin Hb).
+  destruct (Z.ltb_spec 0 (it_size it)); [|lia].
+  unfold from_buffer_length. cbn [negb].
+  destruct (Z.eqb_spec (it_size it) 1) as [->|H1]; [rewrite Z.div_1_r; reflexivity|].
+  destruct (Z.ltb_spec 0 (it_size it)); [|lia]. rewrite Z.quot_div_nonneg by lia. reflexivity.
+Qed.
+
+(* a test on the character flag instead of the size would be wrong for wchar_t / char16_t / char32_t *)
+Theorem char_flag_fast_path_refuted : fast_only_size1 (CAtom (AFlag F_CHAR)) = false /\
+  from_buffer_open_code (CAtom (AFlag F_CHAR)) (mk_item 4 [F_CHAR]) 16 = Ok 16.
+Proof. split; vm_compute; reflexivity. Qed.
 
 (* ---------------------------------------------------------------- memmove *)
 Theorem memmove_is_copy_through_temporary : forall mem dest src n,
